@@ -166,7 +166,8 @@ Proof. exact c08_bounded_l. Qed.
 Print Assumptions c08_no_failure_with_atomic_ops_bounded_partial.
 
 (** ---- FIRST OPEN of a store, statement by statement, under SQLite's lock rules
-    (Model/ConcInit.v: count; BEGIN; count again; five INSERTs; COMMIT; then the
+    (Model/ConcInit.v: count; BEGIN; count again; five times UIDVALIDITY allocator +
+    INSERT; COMMIT; then the
     session's own write).  [begin_mode kind] is the transaction mode the code
     uses for a store of that kind (user store / role-mailbox store): IMMEDIATE
     for both.  Every schedule, any number of sessions (of any DBManager):
@@ -201,9 +202,9 @@ Proof. exact c08_deferred_refuted_l. Qed.
 (** the "peer in the middle" schedules of the correspondence suite: holder held
     before its h-th statement, peer runs, holder released: both acknowledged, one
     set of defaults, two messages; the peer is blocked exactly while the holder
-    is inside its transaction (h = 2..8) *)
-Theorem c08_first_open_hold_schedules : forall h, (h <= 10)%nat ->
+    is inside its transaction (h = 2..13) *)
+Theorem c08_first_open_hold_schedules : forall h, (h <= 15)%nat ->
   eval_hold (Immediate, h) =
-  (1%Z, 1%Z, 1%Z, 2%Z, if ((2 <=? h) && (h <=? 8))%nat then 0%Z else 1%Z).
+  (1%Z, 1%Z, 1%Z, 2%Z, if ((2 <=? h) && (h <=? 13))%nat then 0%Z else 1%Z).
 Proof. exact c08_hold_cases_l. Qed.
 Print Assumptions c08_first_open_hold_schedules.
